@@ -11,5 +11,6 @@ CONSTANTS Principals = {"A", "B"}
           GenPNames = {}
           FilterOnOwner = TRUE
           FixedF8 = TRUE
+          Person <- IdPerson
 INVARIANTS StrictIsolation
 CHECK_DEADLOCK FALSE
